@@ -169,3 +169,30 @@ def validate_traces(trace_module, cfg, scenarios, workdir, name, timeout=900, ex
         prog.setdefault(sid, (0, -1))
     return {"accepted": acc, "progress": prog, "states": r["distinct"], "transitions": r["generated"],
             "wall": r["wall"], "ids": ids, "path": path, "raw": r}
+
+
+# ---------------------------------------------------------------- Apalache (unbounded integers)
+
+def apalache(module, inv, length=0, init=None, cinit="ConstInit", timeout=600):
+    """apalache-mc check; returns {"ok": bool, "outcome": str, "wall": s}. A counterexample is ok=False;
+    anything else that is not NoError raises ToolError."""
+    out_dir = os.path.join(WORK, "apalache")
+    os.makedirs(out_dir, exist_ok=True)
+    cmd = ["apalache-mc", "check", "--out-dir=" + out_dir, "--cinit=" + cinit, "--inv=" + inv, "--length=%d" % length, "--no-deadlock"]
+    if init:
+        cmd.append("--init=" + init)
+    cmd.append(os.path.join(SPEC, module + ".tla"))
+    t0 = time.time()
+    try:
+        p = subprocess.run(cmd, cwd=out_dir, stdout=subprocess.PIPE, stderr=subprocess.STDOUT, text=True, timeout=timeout)
+    except subprocess.TimeoutExpired:
+        raise ToolError("apalache timed out on %s/%s" % (module, inv))
+    m = re.search(r"The outcome is: (\w+)", p.stdout)
+    outcome = m.group(1) if m else "unknown"
+    shutil.rmtree(os.path.join(out_dir, module + ".tla"), ignore_errors=True)
+    if outcome == "NoError":
+        return {"ok": True, "outcome": outcome, "wall": time.time() - t0, "module": module, "inv": inv, "length": length}
+    if outcome == "Error" and "invariant" in p.stdout:
+        return {"ok": False, "outcome": outcome, "wall": time.time() - t0, "module": module, "inv": inv, "length": length,
+                "text": p.stdout[-3000:]}
+    raise ToolError("apalache failed on %s/%s: %s" % (module, inv, p.stdout[-1500:]))
